@@ -41,6 +41,7 @@ func vxH_C01_stackGet() {
 type vxColl struct {
 	c      *collection
 	layers [][]vxEnt // oldest first: lower level, clean, base, mid, top
+	nLower int       // how many of them are the lower level's
 }
 
 // vxMkStack makes a stack of nseg segments with 1..nops ops each.
@@ -77,6 +78,7 @@ func vxMkColl(maxSecs, nseg, nops, kl, vl, alphabet int, mo MergeOperator) *vxCo
 		switch sec {
 		case 0:
 			c.lowerLevelSnapshot = NewSnapshotWrapper(ss, nil)
+			vc.nLower = len(layers)
 		case 1:
 			c.stackClean = ss
 		case 2:
@@ -251,5 +253,79 @@ func vxH_C10_copyOut() {
 		if got[i] != nil {
 			vxAssert("copied-value-intact-after-close", vxBytesEq(got[i], want[i]))
 		}
+	}
+}
+
+func init() { vxRegister("vxH_C10_options", vxH_C10_options) }
+
+// vxH_C10_options: every read option combination on a small directed
+// state: the key's base value in the lower level, above it two unmerged
+// batches (so the multi-cursor iterator is used): one on another key, one
+// with a symbolic operation (Set / Merge / Del / none) on the key. With
+// SkipLowerLevel and NoCopyValue chosen symbolically, Snapshot.Get, the
+// iterator entry and (without SkipLowerLevel) Collection.Get agree with
+// the reference fold over what the options leave visible.
+func vxH_C10_options() {
+	base := &segment{}
+	var eb vxEnt
+	eb.op, eb.k.n, eb.k.b[0], eb.v.n, eb.v.b[0] = OperationSet, 1, 'k', 1, vxU8()
+	base.mutate(OperationSet, vxKeyBytes(eb.k), vxValBytes(eb.v))
+	co := CollectionOptions{MergeOperator: vxAppendMO{}}
+	ci, err := NewCollection(co)
+	vxAssert("new-ok", err == nil)
+	c := ci.(*collection)
+	ll := &segmentStack{options: c.options, refs: 1, a: []Segment{base}}
+	c.lowerLevelSnapshot = NewSnapshotWrapper(ll, nil)
+	var ez vxEnt
+	ez.op, ez.k.n, ez.k.b[0], ez.v.n, ez.v.b[0] = OperationSet, 1, 'z', 1, 1
+	vxExec(c, []vxEnt{ez})
+	upper := [][]vxEnt{{ez}}
+	if op := vxChoose(4); op != 3 {
+		var e vxEnt
+		e.k.n, e.k.b[0] = 1, 'k'
+		switch op {
+		case 0:
+			e.op, e.v.n, e.v.b[0] = OperationSet, 1, vxU8()
+		case 1:
+			e.op, e.v.n, e.v.b[0] = OperationMerge, 1, vxU8()
+		case 2:
+			e.op = OperationDel
+		}
+		vxExec(c, []vxEnt{e})
+		upper = append(upper, []vxEnt{e})
+	}
+	skip := vxChoose(2) == 1
+	nocopy := vxChoose(2) == 1
+	var K vxKey
+	K.n, K.b[0] = 1, 'k'
+	kb := vxKeyBytes(K)
+	var layers [][]vxEnt
+	if !skip {
+		layers = append(layers, []vxEnt{eb})
+	}
+	layers = append(layers, upper...)
+	ref := vxRefFold(K, layers...)
+	snap, serr := c.Snapshot()
+	vxAssert("snapshot-ok", serr == nil)
+	g, gerr := snap.Get(kb, ReadOptions{SkipLowerLevel: skip, NoCopyValue: nocopy})
+	vxAssert("get-ok", gerr == nil)
+	vxObserveBytes("get", g)
+	vxAssert("snapshot-get-equals-fold", vxFoldIs(g, ref))
+	it, ierr := snap.StartIterator(kb, nil, IteratorOptions{SkipLowerLevel: skip})
+	vxAssert("iter-ok", ierr == nil)
+	ik, iv, cerr := it.Current()
+	if cerr == ErrIteratorDone {
+		vxAssert("iter-done-means-absent", vxNot(ref.live))
+	} else {
+		vxObserveBytes("iter-val", iv)
+		atK := vxKeyEq(vxKeyOf(ik), K)
+		vxAssert("iter-entry-equals-fold", vxAnd(vxImplies(atK, vxFoldIs(iv, ref)), vxImplies(ref.live, atK)))
+	}
+	it.Close()
+	snap.Close()
+	if !skip {
+		cg, cgerr := c.Get(kb, ReadOptions{NoCopyValue: nocopy})
+		vxAssert("collection-get-ok", cgerr == nil)
+		vxAssert("collection-get-equals-fold", vxFoldIs(cg, ref))
 	}
 }
